@@ -65,6 +65,7 @@ type Op struct {
 	Gas      uint64 `json:"gas,omitempty"`
 	Coef     uint8  `json:"coef,omitempty"`
 	Tip      uint64 `json:"tip,omitempty"`
+	TipHuge  int    `json:"tip_huge,omitempty"` // dynamic-fee tip beyond 64 bits: 1 -> 2^64, 2 -> 2^64+1, 3 -> 2^70 (+ Tip)
 	Nonce    uint64 `json:"nonce,omitempty"`
 	RefAhead uint32 `json:"ref_ahead,omitempty"`
 	Exp      uint32 `json:"exp,omitempty"`
@@ -176,8 +177,17 @@ func (w *world) buildTx(op *Op) *tx.Transaction {
 		}
 		_ = base
 		// a fee cap far above base fee + tip: the effective gas price then moves with the base fee
-		b.MaxFeePerGas(new(big.Int).Add(new(big.Int).Mul(big.NewInt(thor.InitialBaseFee), big.NewInt(300)), new(big.Int).SetUint64(op.Tip))).
-			MaxPriorityFeePerGas(new(big.Int).SetUint64(op.Tip))
+		tip := new(big.Int).SetUint64(op.Tip)
+		switch op.TipHuge {
+		case 1:
+			tip.Add(tip, new(big.Int).Lsh(big.NewInt(1), 64))
+		case 2:
+			tip.Add(tip, new(big.Int).Add(new(big.Int).Lsh(big.NewInt(1), 64), big.NewInt(1)))
+		case 3:
+			tip.Add(tip, new(big.Int).Lsh(big.NewInt(1), 70))
+		}
+		b.MaxFeePerGas(new(big.Int).Add(new(big.Int).Mul(big.NewInt(thor.InitialBaseFee), big.NewInt(300)), tip)).
+			MaxPriorityFeePerGas(tip)
 	} else {
 		b.GasPriceCoef(op.Coef)
 	}
@@ -386,6 +396,27 @@ func modelStep(prev, cur *snap, op string, lpa int, addErr error) string {
 }
 
 // ---------------------------------------------------------------- executables: order and adoption
+
+// checkOrder: the published executables are in non-increasing priority price order (big.Int comparison on the
+// prices the pool itself holds for the objects)
+func (w *world) checkOrder(s *snap) (class, summary string) {
+	byID := map[thor.Bytes32]txpool.VerifObject{}
+	for _, o := range s.objs {
+		byID[o.ID] = o
+	}
+	var last *big.Int
+	for i, t := range w.pool.Executables() {
+		o, ok := byID[t.ID()]
+		if !ok || o.PriorityGasPrice == nil {
+			continue
+		}
+		if last != nil && o.PriorityGasPrice.Cmp(last) > 0 {
+			return "executables-order", fmt.Sprintf("published executables not in non-increasing priority price order at index %d (%v after %v)", i, o.PriorityGasPrice, last)
+		}
+		last = o.PriorityGasPrice
+	}
+	return "", ""
+}
 
 func (w *world) checkExecutables(s *snap) (class, summary string) {
 	execs := w.pool.Executables()
@@ -795,6 +826,11 @@ func runSeq(ctx *hx.Ctx, sc *SeqCase) (class, summary string, found bool, at int
 		if msg := cur.propertyCheck(); msg != "" {
 			return "accounting-drift-" + kind, msg, true, i
 		}
+		if kind == "wash" && err == nil {
+			if c, s := w.checkOrder(cur); c != "" {
+				return c, s, true, i
+			}
+		}
 		if kind == "wash" && err == nil && sc.Ops[i].Kind != "basefee" {
 			if msg := w.compareWash(prev, cur); msg != "" {
 				return "wash-model", msg, false, i
@@ -871,6 +907,13 @@ func genOp(r *hx.Rand, nGen int) Op {
 	}
 	if r.Chance(1, 25) {
 		op.Gas = 41_000_000 // above the block gas limit: never includable
+	}
+	if r.Chance(1, 10) {
+		// a priority fee that does not fit 64 bits (the payer needs ~390k VTHO for a plain transfer: dev accounts have it)
+		op.Dyn, op.TipHuge, op.Gas = true, 1+r.Intn(3), 21000
+		if op.From == 10 {
+			op.From = r.Intn(6)
+		}
 	}
 	if r.Chance(1, 10) {
 		// a payer near its limit: huge gas so that few such txs exhaust the energy the pool will accept
